@@ -144,12 +144,18 @@ pub struct ExecLike {
 /// An invalid list item is only *constructed* by the harness; whether the library evaluated it is
 /// not observable, so it counts as happened if the response reports it, and otherwise must lie
 /// inside a region nulled by a failure that did happen (the library legitimately stopped early).
-pub fn expected(base: &ExecLike, faulted_log: &[super::world::REvent], root_types: &BTreeMap<String, Ty>, got_errs: &[(String, String)]) -> Result<(J, Vec<(String, String)>), String> {
+pub fn expected(base: &ExecLike, faulted_log: &[super::world::REvent], root_types: &BTreeMap<String, Ty>, got_errs: &[(String, String)], strict_own: bool) -> Result<(J, Vec<(String, String)>), String> {
     // Always with the "in transit" rule: with more than 30 sibling futures futures-util's join polls
     // through a FuturesOrdered, so a second non-null sibling can have returned its error before the
     // join delivers the first one; which of two failures inside one non-null region is reported is a
     // race the property does not (and cannot) fix.
-    expected_ext(base, faulted_log, root_types, got_errs, true)
+    //
+    // `strict_own` narrows that tolerance: a failure of a field that is itself nullable is absorbed at
+    // the field, in the poll in which its resolver (or guard) returned the error; nothing can pre-empt
+    // it any more, so its error is required even if a later failure nulls an enclosing region. Callers
+    // pass `true` only when nothing can suspend between the resolver and the field (no extensions, no
+    // custom directive in the operation).
+    expected_full(base, faulted_log, root_types, got_errs, true, strict_own)
 }
 
 /// `in_transit`: an error a resolver has returned may still be travelling (through a suspended
@@ -157,6 +163,10 @@ pub fn expected(base: &ExecLike, faulted_log: &[super::world::REvent], root_type
 /// failure is treated like an unevaluated list item: optional if its effect lies inside a region
 /// nulled by a failure that was reported.
 pub fn expected_ext(base: &ExecLike, faulted_log: &[super::world::REvent], root_types: &BTreeMap<String, Ty>, got_errs: &[(String, String)], in_transit: bool) -> Result<(J, Vec<(String, String)>), String> {
+    expected_full(base, faulted_log, root_types, got_errs, in_transit, false)
+}
+
+fn expected_full(base: &ExecLike, faulted_log: &[super::world::REvent], root_types: &BTreeMap<String, Ty>, got_errs: &[(String, String)], in_transit: bool, strict_own: bool) -> Result<(J, Vec<(String, String)>), String> {
     let fmap = field_map(&[&base.log, faulted_log]);
     let mut data = base.data.clone();
     let mut errs = vec![];
@@ -166,7 +176,25 @@ pub fn expected_ext(base: &ExecLike, faulted_log: &[super::world::REvent], root_
     let (items, fields): (Vec<_>, Vec<_>) = all.into_iter().partition(|r| r.line == 0 && r.parent.is_empty());
     // fields first, then the items the response reports, then the unreported items
     let (rep, unrep): (Vec<_>, Vec<_>) = items.into_iter().partition(|r| got_errs.iter().any(|(p, _)| *p == r.path));
-    let (frep, funrep): (Vec<_>, Vec<_>) = if in_transit { fields.into_iter().partition(|r| got_errs.iter().any(|(p, _)| *p == r.path)) } else { (fields, vec![]) };
+    let (frep, funrep): (Vec<_>, Vec<_>) = if in_transit {
+        fields.into_iter().partition(|r| {
+            if got_errs.iter().any(|(p, _)| *p == r.path) {
+                return true;
+            }
+            // a nullable field's own failure is settled at once (see `expected`)
+            if strict_own {
+                if let Some(types) = position_types(&r.path, &fmap, root_types) {
+                    if null_position(&r.path, &types).as_deref() == Some(r.path.as_str()) {
+                        sim::count("probe:own-nullable-failure-required");
+                        return true;
+                    }
+                }
+            }
+            false
+        })
+    } else {
+        (fields, vec![])
+    };
     let mut ordered = frep;
     ordered.extend(rep);
     let optional_from = ordered.len();
@@ -260,7 +288,8 @@ fn run(variant: usize) -> CaseOut {
             let fired = failures(&run.log).len();
             out.nontrivial = fired > 0;
             let got_errs = error_set(&resp);
-            match expected(&basel, &run.log, &BTreeMap::new(), &got_errs) {
+            let strict_own = !query.contains("@noop");
+            match expected(&basel, &run.log, &BTreeMap::new(), &got_errs, strict_own) {
                 Err(e) => {
                     sim::count("discard:unattributable");
                     sim::log(format!("unattributable: {e}"));
@@ -345,7 +374,7 @@ fn run_subscription(flavour: Flavour, out: &mut CaseOut) {
         let fl: Vec<super::world::REvent> = run.log.iter().filter(|e| e.ev == 100 + i as i32).cloned().collect();
         out.nontrivial |= !failures(&fl).is_empty();
         let got_errs = error_set(resp);
-        match expected(&base_i, &fl, &root_types, &got_errs) {
+        match expected(&base_i, &fl, &root_types, &got_errs, !query.contains("@noop")) {
             Err(e) => {
                 sim::log(format!("unattributable: {e}"));
                 out.discarded = true;
